@@ -43,6 +43,20 @@ func releaseArg(ins ssa.Instruction, wrappers map[*ssa.Function]int) ssa.Value {
 	return nil
 }
 
+// deferredReleaseArg returns the released value if d defers a pool release.
+func deferredReleaseArg(d *ssa.Defer, wrappers map[*ssa.Function]int) ssa.Value {
+	cc := &d.Call
+	if ssax.CalleeName(cc) == "(*sync.Pool).Put" && len(cc.Args) == 2 {
+		return ssax.Unwrap(cc.Args[1])
+	}
+	if f := cc.StaticCallee(); f != nil {
+		if idx, ok := wrappers[f]; ok && idx < len(cc.Args) {
+			return ssax.Unwrap(cc.Args[idx])
+		}
+	}
+	return nil
+}
+
 // poolWrappers finds thin wrappers of (*sync.Pool).Put: single-block functions that put one of their parameters.
 func poolWrappers(c *core.Ctx) map[*ssa.Function]int {
 	out := map[*ssa.Function]int{}
@@ -126,6 +140,12 @@ func useAfterRelease(c *core.Ctx, fn *ssa.Function, wrappers map[*ssa.Function]i
 	if sites == 0 {
 		return
 	}
+	var deferred []*ssa.Defer
+	ssax.Instrs(fn, func(ins ssa.Instruction) {
+		if d, ok := ins.(*ssa.Defer); ok && deferredReleaseArg(d, wrappers) != nil {
+			deferred = append(deferred, d)
+		}
+	})
 	in := map[*ssa.BasicBlock]relSet{fn.Blocks[0]: {}}
 	outB := map[*ssa.BasicBlock]relSet{}
 	reported := map[string]bool{}
@@ -174,6 +194,29 @@ func useAfterRelease(c *core.Ctx, fn *ssa.Function, wrappers map[*ssa.Function]i
 							viols = append(viols, fmt.Sprintf("pooled object %s (%s) is %s at %s after it was put back at %s", bv.Name(), ssax.ShortType(bv.Type()), what, c.P.Pos(p), c.P.Pos(by.Pos())))
 							pos = append(pos, c.P.Pos(by.Pos()))
 						}
+					}
+				}
+			}
+			// the deferred releases run here: an object already released on this path is released a second time
+			if _, isRun := ins.(*ssa.RunDefers); isRun {
+				for _, d := range deferred {
+					dv := deferredReleaseArg(d, wrappers)
+					by, ok := st[dv]
+					if !ok {
+						continue
+					}
+					isBy := func(i ssa.Instruction) bool { return i == by }
+					isD := func(i ssa.Instruction) bool { return i == ssa.Instruction(d) }
+					h1, _ := (ssax.Reach{Target: isBy}).From(d)
+					h2, _ := (ssax.Reach{Target: isD}).From(by)
+					if h1 == nil && h2 == nil {
+						continue // the two never happen on one path
+					}
+					k := fmt.Sprintf("double-defer|%p|%p", d, by)
+					if !reported[k] {
+						reported[k] = true
+						viols = append(viols, fmt.Sprintf("%s is put back at %s and again by the deferred release registered at %s: the pool hands the same object to two users", dv.Name(), c.P.Pos(by.Pos()), c.P.Pos(d.Pos())))
+						pos = append(pos, c.P.Pos(by.Pos()))
 					}
 				}
 			}
@@ -445,7 +488,7 @@ func runC14(c *core.Ctx) {
 	}()
 	c.Rule("R14.1", "every package-level variable of the server packages is classified: immutable after initialisation, synchronisation primitive, accessed only through sync/atomic, written only under one mutex, or unique-slot registration (index claimed by an atomic increment); anything else is shared mutable state", 40)
 	c.Rule("R14.2", "a location updated through sync/atomic is never read, copied or written plainly at run time unless under the exclusive lock that all its atomic writers hold; registration-time (init-only) code is exempt", 12)
-	c.Rule("R14.3", "after Put / PutResponseHeader(x) on a path, x is not read, written, released again or returned (deferred releases are fine); a deferred release never returns the object", 20)
+	c.Rule("R14.3", "after Put / PutResponseHeader(x) on a path, x is not read, written, released again (explicitly or by a deferred release that is registered on the same path) or returned; a deferred release never returns the object", 20)
 	c.Rule("R14.4", "one backend handler and socket per client connection: ListenAndServe calls both handler constructors inside the accept loop, the memcached constructors dial inside the returned closure and hand the fresh connection to NewHandler", 4)
 	c.Rule("R14.5", "guarded globals: batched.relays is accessed only under relayLock (writes under the exclusive lock); a relay's connection list is stored only under addConnLock and read only through its atomic.Value", 3)
 	c.Rule("R14.6", "state created once by a constructor factory and captured by the per-connection closure is immutable or synchronisation-safe", 8)
@@ -500,6 +543,8 @@ func runC14(c *core.Ctx) {
 
 	// R14.7
 	runR147(c, "R14.7", wrappers, "")
+	c.Rule("R14.13", "nothing nil goes into a shared pool: a (deferred) release of the first result of a call that can return (nil, err) happens only where that call succeeded", 3)
+	checkNoNilIntoPool(c, "R14.13", wrappers)
 
 	// R14.2
 	runAtomicConsistency(c, "R14.2", nil, initOnly)
